@@ -1,52 +1,272 @@
 (* Sha.v -- SHA-1, SHA-256, SHA-384, SHA-512 (FIPS 180-4) in Gallina.
    Self-contained (stdlib only) so that other properties can import it:
        From DV Require Import C11.Sha.
-       sha1 sha256 sha384 sha512 : list N -> list N      (octets in, octets out)
-   Octets are N below 256, words are N below 2^32 / 2^64; all word arithmetic is
-   N.land/N.lor/N.lxor/N.ldiff/N.shiftl/N.shiftr and additions reduced with
-   N.land mask (never N.modulo: the extracted code stays linear in the word
-   size).  No nat for data-dependent sizes: the message length is counted in N,
-   blocks are consumed by structural recursion on the word list, 16 words at a
-   time.  The FIPS 180-4 / RFC 3174 / RFC 6234 test vectors are Examples closed
-   by vm_compute at the end of the file. *)
-From Coq Require Import NArith List String Ascii.
+       sha1 sha256 sha384 sha512 : list N -> list N      (octets in, octets out;
+                                                          octets are N below 256)
+   Representation.  A first version kept 32/64-bit words as N with
+   N.land/N.lxor/N.shiftr; extracted (N and positive stay Coq inductives) it
+   needed 30 ms per KiB.  Words are therefore fixed-shape records of booleans
+   (w32, w64: one constructor, bit W-1 first): a rotation is a re-indexing,
+   Sigma/sigma/Ch/Maj are one record construction, addition is a straight-line
+   ripple carry.  The word operations below are mechanical (generated once by
+   coq/C11/sha_gen.py and checked in); everything from "padding" on is written
+   by hand.  No nat for data-dependent sizes: the message length is counted in
+   N and blocks are consumed by structural recursion on the octet list, 64 or
+   128 octets (16 words) per step.
+   The FIPS 180-4 / RFC 3174 / RFC 6234 test vectors ("abc", "", the 56 and
+   112 octet messages, all lengths around the padding boundaries, 1000 x "a",
+   all 256 octet values) are Examples closed by vm_compute at the end. *)
+From Coq Require Import NArith List String Ascii Bool.
 Import ListNotations.
 Local Open Scope N_scope.
 
-Definition mask32 : N := 4294967295.
-Definition mask64 : N := 18446744073709551615.
+(* octet from bits, most significant first: nb b7 (... (nb b0 0)) is wrong way
+   round; we fold from the most significant bit: acc := 2*acc + b *)
+Definition nb (b : bool) (acc : N) : N := if b then N.succ_double acc else N.double acc.
 
-Definition rotr (wb mask n x : N) : N :=
-  N.lor (N.shiftr x n) (N.land (N.shiftl x (wb - n)) mask).
-Definition rotl (wb mask n x : N) : N :=
-  N.lor (N.land (N.shiftl x n) mask) (N.shiftr x (wb - n)).
+(* ======== generated word operations: 32 bit ======== *)
+Inductive w32 : Type := W32 (x31 x30 x29 x28 x27 x26 x25 x24 x23 x22 x21 x20 x19 x18 x17 x16 x15 x14 x13 x12 x11 x10 x9 x8 x7 x6 x5 x4 x3 x2 x1 x0 : bool).
 
-(* ---- octets <-> big-endian words ---- *)
-Fixpoint words32 (l : list N) : list N :=
-  match l with
-  | a :: b :: c :: d :: r =>
-      N.lor (N.shiftl a 24) (N.lor (N.shiftl b 16) (N.lor (N.shiftl c 8) d)) :: words32 r
-  | _ => []
+Definition w32_xor (a b : w32) : w32 :=
+  match a, b with W32 a31 a30 a29 a28 a27 a26 a25 a24 a23 a22 a21 a20 a19 a18 a17 a16 a15 a14 a13 a12 a11 a10 a9 a8 a7 a6 a5 a4 a3 a2 a1 a0, W32 b31 b30 b29 b28 b27 b26 b25 b24 b23 b22 b21 b20 b19 b18 b17 b16 b15 b14 b13 b12 b11 b10 b9 b8 b7 b6 b5 b4 b3 b2 b1 b0 =>
+    W32 (xorb a31 b31) (xorb a30 b30) (xorb a29 b29) (xorb a28 b28) (xorb a27 b27) (xorb a26 b26) (xorb a25 b25) (xorb a24 b24) (xorb a23 b23) (xorb a22 b22) (xorb a21 b21) (xorb a20 b20) (xorb a19 b19) (xorb a18 b18) (xorb a17 b17) (xorb a16 b16) (xorb a15 b15) (xorb a14 b14) (xorb a13 b13) (xorb a12 b12) (xorb a11 b11) (xorb a10 b10) (xorb a9 b9) (xorb a8 b8) (xorb a7 b7) (xorb a6 b6) (xorb a5 b5) (xorb a4 b4) (xorb a3 b3) (xorb a2 b2) (xorb a1 b1) (xorb a0 b0)
   end.
 
-Fixpoint words64 (l : list N) : list N :=
-  match l with
-  | a :: b :: c :: d :: e :: f :: g :: h :: r =>
-      N.lor (N.shiftl a 56) (N.lor (N.shiftl b 48) (N.lor (N.shiftl c 40) (N.lor (N.shiftl d 32)
-      (N.lor (N.shiftl e 24) (N.lor (N.shiftl f 16) (N.lor (N.shiftl g 8) h)))))) :: words64 r
-  | _ => []
+Definition w32_xor3 (a b c : w32) : w32 :=
+  match a, b, c with W32 a31 a30 a29 a28 a27 a26 a25 a24 a23 a22 a21 a20 a19 a18 a17 a16 a15 a14 a13 a12 a11 a10 a9 a8 a7 a6 a5 a4 a3 a2 a1 a0, W32 b31 b30 b29 b28 b27 b26 b25 b24 b23 b22 b21 b20 b19 b18 b17 b16 b15 b14 b13 b12 b11 b10 b9 b8 b7 b6 b5 b4 b3 b2 b1 b0, W32 c31 c30 c29 c28 c27 c26 c25 c24 c23 c22 c21 c20 c19 c18 c17 c16 c15 c14 c13 c12 c11 c10 c9 c8 c7 c6 c5 c4 c3 c2 c1 c0 =>
+    W32 (xorb a31 (xorb b31 c31)) (xorb a30 (xorb b30 c30)) (xorb a29 (xorb b29 c29)) (xorb a28 (xorb b28 c28)) (xorb a27 (xorb b27 c27)) (xorb a26 (xorb b26 c26)) (xorb a25 (xorb b25 c25)) (xorb a24 (xorb b24 c24)) (xorb a23 (xorb b23 c23)) (xorb a22 (xorb b22 c22)) (xorb a21 (xorb b21 c21)) (xorb a20 (xorb b20 c20)) (xorb a19 (xorb b19 c19)) (xorb a18 (xorb b18 c18)) (xorb a17 (xorb b17 c17)) (xorb a16 (xorb b16 c16)) (xorb a15 (xorb b15 c15)) (xorb a14 (xorb b14 c14)) (xorb a13 (xorb b13 c13)) (xorb a12 (xorb b12 c12)) (xorb a11 (xorb b11 c11)) (xorb a10 (xorb b10 c10)) (xorb a9 (xorb b9 c9)) (xorb a8 (xorb b8 c8)) (xorb a7 (xorb b7 c7)) (xorb a6 (xorb b6 c6)) (xorb a5 (xorb b5 c5)) (xorb a4 (xorb b4 c4)) (xorb a3 (xorb b3 c3)) (xorb a2 (xorb b2 c2)) (xorb a1 (xorb b1 c1)) (xorb a0 (xorb b0 c0))
   end.
 
-Definition bytes_of_word32 (w : N) : list N :=
-  [N.shiftr w 24; N.land (N.shiftr w 16) 255; N.land (N.shiftr w 8) 255; N.land w 255].
-Definition bytes_of_word64 (w : N) : list N :=
-  [N.shiftr w 56; N.land (N.shiftr w 48) 255; N.land (N.shiftr w 40) 255; N.land (N.shiftr w 32) 255;
-   N.land (N.shiftr w 24) 255; N.land (N.shiftr w 16) 255; N.land (N.shiftr w 8) 255; N.land w 255].
+Definition w32_ch (a b c : w32) : w32 :=
+  match a, b, c with W32 a31 a30 a29 a28 a27 a26 a25 a24 a23 a22 a21 a20 a19 a18 a17 a16 a15 a14 a13 a12 a11 a10 a9 a8 a7 a6 a5 a4 a3 a2 a1 a0, W32 b31 b30 b29 b28 b27 b26 b25 b24 b23 b22 b21 b20 b19 b18 b17 b16 b15 b14 b13 b12 b11 b10 b9 b8 b7 b6 b5 b4 b3 b2 b1 b0, W32 c31 c30 c29 c28 c27 c26 c25 c24 c23 c22 c21 c20 c19 c18 c17 c16 c15 c14 c13 c12 c11 c10 c9 c8 c7 c6 c5 c4 c3 c2 c1 c0 =>
+    W32 (if a31 then b31 else c31) (if a30 then b30 else c30) (if a29 then b29 else c29) (if a28 then b28 else c28) (if a27 then b27 else c27) (if a26 then b26 else c26) (if a25 then b25 else c25) (if a24 then b24 else c24) (if a23 then b23 else c23) (if a22 then b22 else c22) (if a21 then b21 else c21) (if a20 then b20 else c20) (if a19 then b19 else c19) (if a18 then b18 else c18) (if a17 then b17 else c17) (if a16 then b16 else c16) (if a15 then b15 else c15) (if a14 then b14 else c14) (if a13 then b13 else c13) (if a12 then b12 else c12) (if a11 then b11 else c11) (if a10 then b10 else c10) (if a9 then b9 else c9) (if a8 then b8 else c8) (if a7 then b7 else c7) (if a6 then b6 else c6) (if a5 then b5 else c5) (if a4 then b4 else c4) (if a3 then b3 else c3) (if a2 then b2 else c2) (if a1 then b1 else c1) (if a0 then b0 else c0)
+  end.
 
-(* ---- padding (FIPS 180-4 section 5.1) ---- *)
+Definition w32_maj (a b c : w32) : w32 :=
+  match a, b, c with W32 a31 a30 a29 a28 a27 a26 a25 a24 a23 a22 a21 a20 a19 a18 a17 a16 a15 a14 a13 a12 a11 a10 a9 a8 a7 a6 a5 a4 a3 a2 a1 a0, W32 b31 b30 b29 b28 b27 b26 b25 b24 b23 b22 b21 b20 b19 b18 b17 b16 b15 b14 b13 b12 b11 b10 b9 b8 b7 b6 b5 b4 b3 b2 b1 b0, W32 c31 c30 c29 c28 c27 c26 c25 c24 c23 c22 c21 c20 c19 c18 c17 c16 c15 c14 c13 c12 c11 c10 c9 c8 c7 c6 c5 c4 c3 c2 c1 c0 =>
+    W32 (if a31 then orb b31 c31 else andb b31 c31) (if a30 then orb b30 c30 else andb b30 c30) (if a29 then orb b29 c29 else andb b29 c29) (if a28 then orb b28 c28 else andb b28 c28) (if a27 then orb b27 c27 else andb b27 c27) (if a26 then orb b26 c26 else andb b26 c26) (if a25 then orb b25 c25 else andb b25 c25) (if a24 then orb b24 c24 else andb b24 c24) (if a23 then orb b23 c23 else andb b23 c23) (if a22 then orb b22 c22 else andb b22 c22) (if a21 then orb b21 c21 else andb b21 c21) (if a20 then orb b20 c20 else andb b20 c20) (if a19 then orb b19 c19 else andb b19 c19) (if a18 then orb b18 c18 else andb b18 c18) (if a17 then orb b17 c17 else andb b17 c17) (if a16 then orb b16 c16 else andb b16 c16) (if a15 then orb b15 c15 else andb b15 c15) (if a14 then orb b14 c14 else andb b14 c14) (if a13 then orb b13 c13 else andb b13 c13) (if a12 then orb b12 c12 else andb b12 c12) (if a11 then orb b11 c11 else andb b11 c11) (if a10 then orb b10 c10 else andb b10 c10) (if a9 then orb b9 c9 else andb b9 c9) (if a8 then orb b8 c8 else andb b8 c8) (if a7 then orb b7 c7 else andb b7 c7) (if a6 then orb b6 c6 else andb b6 c6) (if a5 then orb b5 c5 else andb b5 c5) (if a4 then orb b4 c4 else andb b4 c4) (if a3 then orb b3 c3 else andb b3 c3) (if a2 then orb b2 c2 else andb b2 c2) (if a1 then orb b1 c1 else andb b1 c1) (if a0 then orb b0 c0 else andb b0 c0)
+  end.
+
+Definition w32_rotl1 (a : w32) : w32 :=
+  match a with W32 a31 a30 a29 a28 a27 a26 a25 a24 a23 a22 a21 a20 a19 a18 a17 a16 a15 a14 a13 a12 a11 a10 a9 a8 a7 a6 a5 a4 a3 a2 a1 a0 =>
+    W32 a30 a29 a28 a27 a26 a25 a24 a23 a22 a21 a20 a19 a18 a17 a16 a15 a14 a13 a12 a11 a10 a9 a8 a7 a6 a5 a4 a3 a2 a1 a0 a31
+  end.
+
+Definition w32_rotl5 (a : w32) : w32 :=
+  match a with W32 a31 a30 a29 a28 a27 a26 a25 a24 a23 a22 a21 a20 a19 a18 a17 a16 a15 a14 a13 a12 a11 a10 a9 a8 a7 a6 a5 a4 a3 a2 a1 a0 =>
+    W32 a26 a25 a24 a23 a22 a21 a20 a19 a18 a17 a16 a15 a14 a13 a12 a11 a10 a9 a8 a7 a6 a5 a4 a3 a2 a1 a0 a31 a30 a29 a28 a27
+  end.
+
+Definition w32_rotl30 (a : w32) : w32 :=
+  match a with W32 a31 a30 a29 a28 a27 a26 a25 a24 a23 a22 a21 a20 a19 a18 a17 a16 a15 a14 a13 a12 a11 a10 a9 a8 a7 a6 a5 a4 a3 a2 a1 a0 =>
+    W32 a1 a0 a31 a30 a29 a28 a27 a26 a25 a24 a23 a22 a21 a20 a19 a18 a17 a16 a15 a14 a13 a12 a11 a10 a9 a8 a7 a6 a5 a4 a3 a2
+  end.
+
+Definition w32_bsig0 (a : w32) : w32 :=
+  match a with W32 a31 a30 a29 a28 a27 a26 a25 a24 a23 a22 a21 a20 a19 a18 a17 a16 a15 a14 a13 a12 a11 a10 a9 a8 a7 a6 a5 a4 a3 a2 a1 a0 =>
+    W32 (xorb a1 (xorb a12 a21)) (xorb a0 (xorb a11 a20)) (xorb a31 (xorb a10 a19)) (xorb a30 (xorb a9 a18)) (xorb a29 (xorb a8 a17)) (xorb a28 (xorb a7 a16)) (xorb a27 (xorb a6 a15)) (xorb a26 (xorb a5 a14)) (xorb a25 (xorb a4 a13)) (xorb a24 (xorb a3 a12)) (xorb a23 (xorb a2 a11)) (xorb a22 (xorb a1 a10)) (xorb a21 (xorb a0 a9)) (xorb a20 (xorb a31 a8)) (xorb a19 (xorb a30 a7)) (xorb a18 (xorb a29 a6)) (xorb a17 (xorb a28 a5)) (xorb a16 (xorb a27 a4)) (xorb a15 (xorb a26 a3)) (xorb a14 (xorb a25 a2)) (xorb a13 (xorb a24 a1)) (xorb a12 (xorb a23 a0)) (xorb a11 (xorb a22 a31)) (xorb a10 (xorb a21 a30)) (xorb a9 (xorb a20 a29)) (xorb a8 (xorb a19 a28)) (xorb a7 (xorb a18 a27)) (xorb a6 (xorb a17 a26)) (xorb a5 (xorb a16 a25)) (xorb a4 (xorb a15 a24)) (xorb a3 (xorb a14 a23)) (xorb a2 (xorb a13 a22))
+  end.
+
+Definition w32_bsig1 (a : w32) : w32 :=
+  match a with W32 a31 a30 a29 a28 a27 a26 a25 a24 a23 a22 a21 a20 a19 a18 a17 a16 a15 a14 a13 a12 a11 a10 a9 a8 a7 a6 a5 a4 a3 a2 a1 a0 =>
+    W32 (xorb a5 (xorb a10 a24)) (xorb a4 (xorb a9 a23)) (xorb a3 (xorb a8 a22)) (xorb a2 (xorb a7 a21)) (xorb a1 (xorb a6 a20)) (xorb a0 (xorb a5 a19)) (xorb a31 (xorb a4 a18)) (xorb a30 (xorb a3 a17)) (xorb a29 (xorb a2 a16)) (xorb a28 (xorb a1 a15)) (xorb a27 (xorb a0 a14)) (xorb a26 (xorb a31 a13)) (xorb a25 (xorb a30 a12)) (xorb a24 (xorb a29 a11)) (xorb a23 (xorb a28 a10)) (xorb a22 (xorb a27 a9)) (xorb a21 (xorb a26 a8)) (xorb a20 (xorb a25 a7)) (xorb a19 (xorb a24 a6)) (xorb a18 (xorb a23 a5)) (xorb a17 (xorb a22 a4)) (xorb a16 (xorb a21 a3)) (xorb a15 (xorb a20 a2)) (xorb a14 (xorb a19 a1)) (xorb a13 (xorb a18 a0)) (xorb a12 (xorb a17 a31)) (xorb a11 (xorb a16 a30)) (xorb a10 (xorb a15 a29)) (xorb a9 (xorb a14 a28)) (xorb a8 (xorb a13 a27)) (xorb a7 (xorb a12 a26)) (xorb a6 (xorb a11 a25))
+  end.
+
+Definition w32_ssig0 (a : w32) : w32 :=
+  match a with W32 a31 a30 a29 a28 a27 a26 a25 a24 a23 a22 a21 a20 a19 a18 a17 a16 a15 a14 a13 a12 a11 a10 a9 a8 a7 a6 a5 a4 a3 a2 a1 a0 =>
+    W32 (xorb a6 a17) (xorb a5 a16) (xorb a4 a15) (xorb a3 (xorb a14 a31)) (xorb a2 (xorb a13 a30)) (xorb a1 (xorb a12 a29)) (xorb a0 (xorb a11 a28)) (xorb a31 (xorb a10 a27)) (xorb a30 (xorb a9 a26)) (xorb a29 (xorb a8 a25)) (xorb a28 (xorb a7 a24)) (xorb a27 (xorb a6 a23)) (xorb a26 (xorb a5 a22)) (xorb a25 (xorb a4 a21)) (xorb a24 (xorb a3 a20)) (xorb a23 (xorb a2 a19)) (xorb a22 (xorb a1 a18)) (xorb a21 (xorb a0 a17)) (xorb a20 (xorb a31 a16)) (xorb a19 (xorb a30 a15)) (xorb a18 (xorb a29 a14)) (xorb a17 (xorb a28 a13)) (xorb a16 (xorb a27 a12)) (xorb a15 (xorb a26 a11)) (xorb a14 (xorb a25 a10)) (xorb a13 (xorb a24 a9)) (xorb a12 (xorb a23 a8)) (xorb a11 (xorb a22 a7)) (xorb a10 (xorb a21 a6)) (xorb a9 (xorb a20 a5)) (xorb a8 (xorb a19 a4)) (xorb a7 (xorb a18 a3))
+  end.
+
+Definition w32_ssig1 (a : w32) : w32 :=
+  match a with W32 a31 a30 a29 a28 a27 a26 a25 a24 a23 a22 a21 a20 a19 a18 a17 a16 a15 a14 a13 a12 a11 a10 a9 a8 a7 a6 a5 a4 a3 a2 a1 a0 =>
+    W32 (xorb a16 a18) (xorb a15 a17) (xorb a14 a16) (xorb a13 a15) (xorb a12 a14) (xorb a11 a13) (xorb a10 a12) (xorb a9 a11) (xorb a8 a10) (xorb a7 a9) (xorb a6 (xorb a8 a31)) (xorb a5 (xorb a7 a30)) (xorb a4 (xorb a6 a29)) (xorb a3 (xorb a5 a28)) (xorb a2 (xorb a4 a27)) (xorb a1 (xorb a3 a26)) (xorb a0 (xorb a2 a25)) (xorb a31 (xorb a1 a24)) (xorb a30 (xorb a0 a23)) (xorb a29 (xorb a31 a22)) (xorb a28 (xorb a30 a21)) (xorb a27 (xorb a29 a20)) (xorb a26 (xorb a28 a19)) (xorb a25 (xorb a27 a18)) (xorb a24 (xorb a26 a17)) (xorb a23 (xorb a25 a16)) (xorb a22 (xorb a24 a15)) (xorb a21 (xorb a23 a14)) (xorb a20 (xorb a22 a13)) (xorb a19 (xorb a21 a12)) (xorb a18 (xorb a20 a11)) (xorb a17 (xorb a19 a10))
+  end.
+
+Definition w32_add (a b : w32) : w32 :=
+  match a, b with W32 a31 a30 a29 a28 a27 a26 a25 a24 a23 a22 a21 a20 a19 a18 a17 a16 a15 a14 a13 a12 a11 a10 a9 a8 a7 a6 a5 a4 a3 a2 a1 a0, W32 b31 b30 b29 b28 b27 b26 b25 b24 b23 b22 b21 b20 b19 b18 b17 b16 b15 b14 b13 b12 b11 b10 b9 b8 b7 b6 b5 b4 b3 b2 b1 b0 =>
+    let s0 := xorb a0 b0 in let c1 := andb a0 b0 in
+    let s1 := xorb a1 (xorb b1 c1) in let c2 := if a1 then orb b1 c1 else andb b1 c1 in
+    let s2 := xorb a2 (xorb b2 c2) in let c3 := if a2 then orb b2 c2 else andb b2 c2 in
+    let s3 := xorb a3 (xorb b3 c3) in let c4 := if a3 then orb b3 c3 else andb b3 c3 in
+    let s4 := xorb a4 (xorb b4 c4) in let c5 := if a4 then orb b4 c4 else andb b4 c4 in
+    let s5 := xorb a5 (xorb b5 c5) in let c6 := if a5 then orb b5 c5 else andb b5 c5 in
+    let s6 := xorb a6 (xorb b6 c6) in let c7 := if a6 then orb b6 c6 else andb b6 c6 in
+    let s7 := xorb a7 (xorb b7 c7) in let c8 := if a7 then orb b7 c7 else andb b7 c7 in
+    let s8 := xorb a8 (xorb b8 c8) in let c9 := if a8 then orb b8 c8 else andb b8 c8 in
+    let s9 := xorb a9 (xorb b9 c9) in let c10 := if a9 then orb b9 c9 else andb b9 c9 in
+    let s10 := xorb a10 (xorb b10 c10) in let c11 := if a10 then orb b10 c10 else andb b10 c10 in
+    let s11 := xorb a11 (xorb b11 c11) in let c12 := if a11 then orb b11 c11 else andb b11 c11 in
+    let s12 := xorb a12 (xorb b12 c12) in let c13 := if a12 then orb b12 c12 else andb b12 c12 in
+    let s13 := xorb a13 (xorb b13 c13) in let c14 := if a13 then orb b13 c13 else andb b13 c13 in
+    let s14 := xorb a14 (xorb b14 c14) in let c15 := if a14 then orb b14 c14 else andb b14 c14 in
+    let s15 := xorb a15 (xorb b15 c15) in let c16 := if a15 then orb b15 c15 else andb b15 c15 in
+    let s16 := xorb a16 (xorb b16 c16) in let c17 := if a16 then orb b16 c16 else andb b16 c16 in
+    let s17 := xorb a17 (xorb b17 c17) in let c18 := if a17 then orb b17 c17 else andb b17 c17 in
+    let s18 := xorb a18 (xorb b18 c18) in let c19 := if a18 then orb b18 c18 else andb b18 c18 in
+    let s19 := xorb a19 (xorb b19 c19) in let c20 := if a19 then orb b19 c19 else andb b19 c19 in
+    let s20 := xorb a20 (xorb b20 c20) in let c21 := if a20 then orb b20 c20 else andb b20 c20 in
+    let s21 := xorb a21 (xorb b21 c21) in let c22 := if a21 then orb b21 c21 else andb b21 c21 in
+    let s22 := xorb a22 (xorb b22 c22) in let c23 := if a22 then orb b22 c22 else andb b22 c22 in
+    let s23 := xorb a23 (xorb b23 c23) in let c24 := if a23 then orb b23 c23 else andb b23 c23 in
+    let s24 := xorb a24 (xorb b24 c24) in let c25 := if a24 then orb b24 c24 else andb b24 c24 in
+    let s25 := xorb a25 (xorb b25 c25) in let c26 := if a25 then orb b25 c25 else andb b25 c25 in
+    let s26 := xorb a26 (xorb b26 c26) in let c27 := if a26 then orb b26 c26 else andb b26 c26 in
+    let s27 := xorb a27 (xorb b27 c27) in let c28 := if a27 then orb b27 c27 else andb b27 c27 in
+    let s28 := xorb a28 (xorb b28 c28) in let c29 := if a28 then orb b28 c28 else andb b28 c28 in
+    let s29 := xorb a29 (xorb b29 c29) in let c30 := if a29 then orb b29 c29 else andb b29 c29 in
+    let s30 := xorb a30 (xorb b30 c30) in let c31 := if a30 then orb b30 c30 else andb b30 c30 in
+    let s31 := xorb a31 (xorb b31 c31) in
+    W32 s31 s30 s29 s28 s27 s26 s25 s24 s23 s22 s21 s20 s19 s18 s17 s16 s15 s14 s13 s12 s11 s10 s9 s8 s7 s6 s5 s4 s3 s2 s1 s0
+  end.
+
+Definition w32_of_octets (o0 o1 o2 o3 : N) : w32 :=
+  W32 (N.testbit o0 7) (N.testbit o0 6) (N.testbit o0 5) (N.testbit o0 4) (N.testbit o0 3) (N.testbit o0 2) (N.testbit o0 1) (N.testbit o0 0) (N.testbit o1 7) (N.testbit o1 6) (N.testbit o1 5) (N.testbit o1 4) (N.testbit o1 3) (N.testbit o1 2) (N.testbit o1 1) (N.testbit o1 0) (N.testbit o2 7) (N.testbit o2 6) (N.testbit o2 5) (N.testbit o2 4) (N.testbit o2 3) (N.testbit o2 2) (N.testbit o2 1) (N.testbit o2 0) (N.testbit o3 7) (N.testbit o3 6) (N.testbit o3 5) (N.testbit o3 4) (N.testbit o3 3) (N.testbit o3 2) (N.testbit o3 1) (N.testbit o3 0).
+
+Definition octets_of_w32 (a : w32) : list N :=
+  match a with W32 a31 a30 a29 a28 a27 a26 a25 a24 a23 a22 a21 a20 a19 a18 a17 a16 a15 a14 a13 a12 a11 a10 a9 a8 a7 a6 a5 a4 a3 a2 a1 a0 =>
+    [ nb a24 (nb a25 (nb a26 (nb a27 (nb a28 (nb a29 (nb a30 (nb a31 (0))))))));
+      nb a16 (nb a17 (nb a18 (nb a19 (nb a20 (nb a21 (nb a22 (nb a23 (0))))))));
+      nb a8 (nb a9 (nb a10 (nb a11 (nb a12 (nb a13 (nb a14 (nb a15 (0))))))));
+      nb a0 (nb a1 (nb a2 (nb a3 (nb a4 (nb a5 (nb a6 (nb a7 (0)))))))) ]
+  end.
+
+Definition w32_of_N (x : N) : w32 :=
+  W32 (N.testbit x 31) (N.testbit x 30) (N.testbit x 29) (N.testbit x 28) (N.testbit x 27) (N.testbit x 26) (N.testbit x 25) (N.testbit x 24) (N.testbit x 23) (N.testbit x 22) (N.testbit x 21) (N.testbit x 20) (N.testbit x 19) (N.testbit x 18) (N.testbit x 17) (N.testbit x 16) (N.testbit x 15) (N.testbit x 14) (N.testbit x 13) (N.testbit x 12) (N.testbit x 11) (N.testbit x 10) (N.testbit x 9) (N.testbit x 8) (N.testbit x 7) (N.testbit x 6) (N.testbit x 5) (N.testbit x 4) (N.testbit x 3) (N.testbit x 2) (N.testbit x 1) (N.testbit x 0).
+
+(* ======== generated word operations: 64 bit ======== *)
+Inductive w64 : Type := W64 (x63 x62 x61 x60 x59 x58 x57 x56 x55 x54 x53 x52 x51 x50 x49 x48 x47 x46 x45 x44 x43 x42 x41 x40 x39 x38 x37 x36 x35 x34 x33 x32 x31 x30 x29 x28 x27 x26 x25 x24 x23 x22 x21 x20 x19 x18 x17 x16 x15 x14 x13 x12 x11 x10 x9 x8 x7 x6 x5 x4 x3 x2 x1 x0 : bool).
+
+Definition w64_xor (a b : w64) : w64 :=
+  match a, b with W64 a63 a62 a61 a60 a59 a58 a57 a56 a55 a54 a53 a52 a51 a50 a49 a48 a47 a46 a45 a44 a43 a42 a41 a40 a39 a38 a37 a36 a35 a34 a33 a32 a31 a30 a29 a28 a27 a26 a25 a24 a23 a22 a21 a20 a19 a18 a17 a16 a15 a14 a13 a12 a11 a10 a9 a8 a7 a6 a5 a4 a3 a2 a1 a0, W64 b63 b62 b61 b60 b59 b58 b57 b56 b55 b54 b53 b52 b51 b50 b49 b48 b47 b46 b45 b44 b43 b42 b41 b40 b39 b38 b37 b36 b35 b34 b33 b32 b31 b30 b29 b28 b27 b26 b25 b24 b23 b22 b21 b20 b19 b18 b17 b16 b15 b14 b13 b12 b11 b10 b9 b8 b7 b6 b5 b4 b3 b2 b1 b0 =>
+    W64 (xorb a63 b63) (xorb a62 b62) (xorb a61 b61) (xorb a60 b60) (xorb a59 b59) (xorb a58 b58) (xorb a57 b57) (xorb a56 b56) (xorb a55 b55) (xorb a54 b54) (xorb a53 b53) (xorb a52 b52) (xorb a51 b51) (xorb a50 b50) (xorb a49 b49) (xorb a48 b48) (xorb a47 b47) (xorb a46 b46) (xorb a45 b45) (xorb a44 b44) (xorb a43 b43) (xorb a42 b42) (xorb a41 b41) (xorb a40 b40) (xorb a39 b39) (xorb a38 b38) (xorb a37 b37) (xorb a36 b36) (xorb a35 b35) (xorb a34 b34) (xorb a33 b33) (xorb a32 b32) (xorb a31 b31) (xorb a30 b30) (xorb a29 b29) (xorb a28 b28) (xorb a27 b27) (xorb a26 b26) (xorb a25 b25) (xorb a24 b24) (xorb a23 b23) (xorb a22 b22) (xorb a21 b21) (xorb a20 b20) (xorb a19 b19) (xorb a18 b18) (xorb a17 b17) (xorb a16 b16) (xorb a15 b15) (xorb a14 b14) (xorb a13 b13) (xorb a12 b12) (xorb a11 b11) (xorb a10 b10) (xorb a9 b9) (xorb a8 b8) (xorb a7 b7) (xorb a6 b6) (xorb a5 b5) (xorb a4 b4) (xorb a3 b3) (xorb a2 b2) (xorb a1 b1) (xorb a0 b0)
+  end.
+
+Definition w64_xor3 (a b c : w64) : w64 :=
+  match a, b, c with W64 a63 a62 a61 a60 a59 a58 a57 a56 a55 a54 a53 a52 a51 a50 a49 a48 a47 a46 a45 a44 a43 a42 a41 a40 a39 a38 a37 a36 a35 a34 a33 a32 a31 a30 a29 a28 a27 a26 a25 a24 a23 a22 a21 a20 a19 a18 a17 a16 a15 a14 a13 a12 a11 a10 a9 a8 a7 a6 a5 a4 a3 a2 a1 a0, W64 b63 b62 b61 b60 b59 b58 b57 b56 b55 b54 b53 b52 b51 b50 b49 b48 b47 b46 b45 b44 b43 b42 b41 b40 b39 b38 b37 b36 b35 b34 b33 b32 b31 b30 b29 b28 b27 b26 b25 b24 b23 b22 b21 b20 b19 b18 b17 b16 b15 b14 b13 b12 b11 b10 b9 b8 b7 b6 b5 b4 b3 b2 b1 b0, W64 c63 c62 c61 c60 c59 c58 c57 c56 c55 c54 c53 c52 c51 c50 c49 c48 c47 c46 c45 c44 c43 c42 c41 c40 c39 c38 c37 c36 c35 c34 c33 c32 c31 c30 c29 c28 c27 c26 c25 c24 c23 c22 c21 c20 c19 c18 c17 c16 c15 c14 c13 c12 c11 c10 c9 c8 c7 c6 c5 c4 c3 c2 c1 c0 =>
+    W64 (xorb a63 (xorb b63 c63)) (xorb a62 (xorb b62 c62)) (xorb a61 (xorb b61 c61)) (xorb a60 (xorb b60 c60)) (xorb a59 (xorb b59 c59)) (xorb a58 (xorb b58 c58)) (xorb a57 (xorb b57 c57)) (xorb a56 (xorb b56 c56)) (xorb a55 (xorb b55 c55)) (xorb a54 (xorb b54 c54)) (xorb a53 (xorb b53 c53)) (xorb a52 (xorb b52 c52)) (xorb a51 (xorb b51 c51)) (xorb a50 (xorb b50 c50)) (xorb a49 (xorb b49 c49)) (xorb a48 (xorb b48 c48)) (xorb a47 (xorb b47 c47)) (xorb a46 (xorb b46 c46)) (xorb a45 (xorb b45 c45)) (xorb a44 (xorb b44 c44)) (xorb a43 (xorb b43 c43)) (xorb a42 (xorb b42 c42)) (xorb a41 (xorb b41 c41)) (xorb a40 (xorb b40 c40)) (xorb a39 (xorb b39 c39)) (xorb a38 (xorb b38 c38)) (xorb a37 (xorb b37 c37)) (xorb a36 (xorb b36 c36)) (xorb a35 (xorb b35 c35)) (xorb a34 (xorb b34 c34)) (xorb a33 (xorb b33 c33)) (xorb a32 (xorb b32 c32)) (xorb a31 (xorb b31 c31)) (xorb a30 (xorb b30 c30)) (xorb a29 (xorb b29 c29)) (xorb a28 (xorb b28 c28)) (xorb a27 (xorb b27 c27)) (xorb a26 (xorb b26 c26)) (xorb a25 (xorb b25 c25)) (xorb a24 (xorb b24 c24)) (xorb a23 (xorb b23 c23)) (xorb a22 (xorb b22 c22)) (xorb a21 (xorb b21 c21)) (xorb a20 (xorb b20 c20)) (xorb a19 (xorb b19 c19)) (xorb a18 (xorb b18 c18)) (xorb a17 (xorb b17 c17)) (xorb a16 (xorb b16 c16)) (xorb a15 (xorb b15 c15)) (xorb a14 (xorb b14 c14)) (xorb a13 (xorb b13 c13)) (xorb a12 (xorb b12 c12)) (xorb a11 (xorb b11 c11)) (xorb a10 (xorb b10 c10)) (xorb a9 (xorb b9 c9)) (xorb a8 (xorb b8 c8)) (xorb a7 (xorb b7 c7)) (xorb a6 (xorb b6 c6)) (xorb a5 (xorb b5 c5)) (xorb a4 (xorb b4 c4)) (xorb a3 (xorb b3 c3)) (xorb a2 (xorb b2 c2)) (xorb a1 (xorb b1 c1)) (xorb a0 (xorb b0 c0))
+  end.
+
+Definition w64_ch (a b c : w64) : w64 :=
+  match a, b, c with W64 a63 a62 a61 a60 a59 a58 a57 a56 a55 a54 a53 a52 a51 a50 a49 a48 a47 a46 a45 a44 a43 a42 a41 a40 a39 a38 a37 a36 a35 a34 a33 a32 a31 a30 a29 a28 a27 a26 a25 a24 a23 a22 a21 a20 a19 a18 a17 a16 a15 a14 a13 a12 a11 a10 a9 a8 a7 a6 a5 a4 a3 a2 a1 a0, W64 b63 b62 b61 b60 b59 b58 b57 b56 b55 b54 b53 b52 b51 b50 b49 b48 b47 b46 b45 b44 b43 b42 b41 b40 b39 b38 b37 b36 b35 b34 b33 b32 b31 b30 b29 b28 b27 b26 b25 b24 b23 b22 b21 b20 b19 b18 b17 b16 b15 b14 b13 b12 b11 b10 b9 b8 b7 b6 b5 b4 b3 b2 b1 b0, W64 c63 c62 c61 c60 c59 c58 c57 c56 c55 c54 c53 c52 c51 c50 c49 c48 c47 c46 c45 c44 c43 c42 c41 c40 c39 c38 c37 c36 c35 c34 c33 c32 c31 c30 c29 c28 c27 c26 c25 c24 c23 c22 c21 c20 c19 c18 c17 c16 c15 c14 c13 c12 c11 c10 c9 c8 c7 c6 c5 c4 c3 c2 c1 c0 =>
+    W64 (if a63 then b63 else c63) (if a62 then b62 else c62) (if a61 then b61 else c61) (if a60 then b60 else c60) (if a59 then b59 else c59) (if a58 then b58 else c58) (if a57 then b57 else c57) (if a56 then b56 else c56) (if a55 then b55 else c55) (if a54 then b54 else c54) (if a53 then b53 else c53) (if a52 then b52 else c52) (if a51 then b51 else c51) (if a50 then b50 else c50) (if a49 then b49 else c49) (if a48 then b48 else c48) (if a47 then b47 else c47) (if a46 then b46 else c46) (if a45 then b45 else c45) (if a44 then b44 else c44) (if a43 then b43 else c43) (if a42 then b42 else c42) (if a41 then b41 else c41) (if a40 then b40 else c40) (if a39 then b39 else c39) (if a38 then b38 else c38) (if a37 then b37 else c37) (if a36 then b36 else c36) (if a35 then b35 else c35) (if a34 then b34 else c34) (if a33 then b33 else c33) (if a32 then b32 else c32) (if a31 then b31 else c31) (if a30 then b30 else c30) (if a29 then b29 else c29) (if a28 then b28 else c28) (if a27 then b27 else c27) (if a26 then b26 else c26) (if a25 then b25 else c25) (if a24 then b24 else c24) (if a23 then b23 else c23) (if a22 then b22 else c22) (if a21 then b21 else c21) (if a20 then b20 else c20) (if a19 then b19 else c19) (if a18 then b18 else c18) (if a17 then b17 else c17) (if a16 then b16 else c16) (if a15 then b15 else c15) (if a14 then b14 else c14) (if a13 then b13 else c13) (if a12 then b12 else c12) (if a11 then b11 else c11) (if a10 then b10 else c10) (if a9 then b9 else c9) (if a8 then b8 else c8) (if a7 then b7 else c7) (if a6 then b6 else c6) (if a5 then b5 else c5) (if a4 then b4 else c4) (if a3 then b3 else c3) (if a2 then b2 else c2) (if a1 then b1 else c1) (if a0 then b0 else c0)
+  end.
+
+Definition w64_maj (a b c : w64) : w64 :=
+  match a, b, c with W64 a63 a62 a61 a60 a59 a58 a57 a56 a55 a54 a53 a52 a51 a50 a49 a48 a47 a46 a45 a44 a43 a42 a41 a40 a39 a38 a37 a36 a35 a34 a33 a32 a31 a30 a29 a28 a27 a26 a25 a24 a23 a22 a21 a20 a19 a18 a17 a16 a15 a14 a13 a12 a11 a10 a9 a8 a7 a6 a5 a4 a3 a2 a1 a0, W64 b63 b62 b61 b60 b59 b58 b57 b56 b55 b54 b53 b52 b51 b50 b49 b48 b47 b46 b45 b44 b43 b42 b41 b40 b39 b38 b37 b36 b35 b34 b33 b32 b31 b30 b29 b28 b27 b26 b25 b24 b23 b22 b21 b20 b19 b18 b17 b16 b15 b14 b13 b12 b11 b10 b9 b8 b7 b6 b5 b4 b3 b2 b1 b0, W64 c63 c62 c61 c60 c59 c58 c57 c56 c55 c54 c53 c52 c51 c50 c49 c48 c47 c46 c45 c44 c43 c42 c41 c40 c39 c38 c37 c36 c35 c34 c33 c32 c31 c30 c29 c28 c27 c26 c25 c24 c23 c22 c21 c20 c19 c18 c17 c16 c15 c14 c13 c12 c11 c10 c9 c8 c7 c6 c5 c4 c3 c2 c1 c0 =>
+    W64 (if a63 then orb b63 c63 else andb b63 c63) (if a62 then orb b62 c62 else andb b62 c62) (if a61 then orb b61 c61 else andb b61 c61) (if a60 then orb b60 c60 else andb b60 c60) (if a59 then orb b59 c59 else andb b59 c59) (if a58 then orb b58 c58 else andb b58 c58) (if a57 then orb b57 c57 else andb b57 c57) (if a56 then orb b56 c56 else andb b56 c56) (if a55 then orb b55 c55 else andb b55 c55) (if a54 then orb b54 c54 else andb b54 c54) (if a53 then orb b53 c53 else andb b53 c53) (if a52 then orb b52 c52 else andb b52 c52) (if a51 then orb b51 c51 else andb b51 c51) (if a50 then orb b50 c50 else andb b50 c50) (if a49 then orb b49 c49 else andb b49 c49) (if a48 then orb b48 c48 else andb b48 c48) (if a47 then orb b47 c47 else andb b47 c47) (if a46 then orb b46 c46 else andb b46 c46) (if a45 then orb b45 c45 else andb b45 c45) (if a44 then orb b44 c44 else andb b44 c44) (if a43 then orb b43 c43 else andb b43 c43) (if a42 then orb b42 c42 else andb b42 c42) (if a41 then orb b41 c41 else andb b41 c41) (if a40 then orb b40 c40 else andb b40 c40) (if a39 then orb b39 c39 else andb b39 c39) (if a38 then orb b38 c38 else andb b38 c38) (if a37 then orb b37 c37 else andb b37 c37) (if a36 then orb b36 c36 else andb b36 c36) (if a35 then orb b35 c35 else andb b35 c35) (if a34 then orb b34 c34 else andb b34 c34) (if a33 then orb b33 c33 else andb b33 c33) (if a32 then orb b32 c32 else andb b32 c32) (if a31 then orb b31 c31 else andb b31 c31) (if a30 then orb b30 c30 else andb b30 c30) (if a29 then orb b29 c29 else andb b29 c29) (if a28 then orb b28 c28 else andb b28 c28) (if a27 then orb b27 c27 else andb b27 c27) (if a26 then orb b26 c26 else andb b26 c26) (if a25 then orb b25 c25 else andb b25 c25) (if a24 then orb b24 c24 else andb b24 c24) (if a23 then orb b23 c23 else andb b23 c23) (if a22 then orb b22 c22 else andb b22 c22) (if a21 then orb b21 c21 else andb b21 c21) (if a20 then orb b20 c20 else andb b20 c20) (if a19 then orb b19 c19 else andb b19 c19) (if a18 then orb b18 c18 else andb b18 c18) (if a17 then orb b17 c17 else andb b17 c17) (if a16 then orb b16 c16 else andb b16 c16) (if a15 then orb b15 c15 else andb b15 c15) (if a14 then orb b14 c14 else andb b14 c14) (if a13 then orb b13 c13 else andb b13 c13) (if a12 then orb b12 c12 else andb b12 c12) (if a11 then orb b11 c11 else andb b11 c11) (if a10 then orb b10 c10 else andb b10 c10) (if a9 then orb b9 c9 else andb b9 c9) (if a8 then orb b8 c8 else andb b8 c8) (if a7 then orb b7 c7 else andb b7 c7) (if a6 then orb b6 c6 else andb b6 c6) (if a5 then orb b5 c5 else andb b5 c5) (if a4 then orb b4 c4 else andb b4 c4) (if a3 then orb b3 c3 else andb b3 c3) (if a2 then orb b2 c2 else andb b2 c2) (if a1 then orb b1 c1 else andb b1 c1) (if a0 then orb b0 c0 else andb b0 c0)
+  end.
+
+Definition w64_bsig0 (a : w64) : w64 :=
+  match a with W64 a63 a62 a61 a60 a59 a58 a57 a56 a55 a54 a53 a52 a51 a50 a49 a48 a47 a46 a45 a44 a43 a42 a41 a40 a39 a38 a37 a36 a35 a34 a33 a32 a31 a30 a29 a28 a27 a26 a25 a24 a23 a22 a21 a20 a19 a18 a17 a16 a15 a14 a13 a12 a11 a10 a9 a8 a7 a6 a5 a4 a3 a2 a1 a0 =>
+    W64 (xorb a27 (xorb a33 a38)) (xorb a26 (xorb a32 a37)) (xorb a25 (xorb a31 a36)) (xorb a24 (xorb a30 a35)) (xorb a23 (xorb a29 a34)) (xorb a22 (xorb a28 a33)) (xorb a21 (xorb a27 a32)) (xorb a20 (xorb a26 a31)) (xorb a19 (xorb a25 a30)) (xorb a18 (xorb a24 a29)) (xorb a17 (xorb a23 a28)) (xorb a16 (xorb a22 a27)) (xorb a15 (xorb a21 a26)) (xorb a14 (xorb a20 a25)) (xorb a13 (xorb a19 a24)) (xorb a12 (xorb a18 a23)) (xorb a11 (xorb a17 a22)) (xorb a10 (xorb a16 a21)) (xorb a9 (xorb a15 a20)) (xorb a8 (xorb a14 a19)) (xorb a7 (xorb a13 a18)) (xorb a6 (xorb a12 a17)) (xorb a5 (xorb a11 a16)) (xorb a4 (xorb a10 a15)) (xorb a3 (xorb a9 a14)) (xorb a2 (xorb a8 a13)) (xorb a1 (xorb a7 a12)) (xorb a0 (xorb a6 a11)) (xorb a63 (xorb a5 a10)) (xorb a62 (xorb a4 a9)) (xorb a61 (xorb a3 a8)) (xorb a60 (xorb a2 a7)) (xorb a59 (xorb a1 a6)) (xorb a58 (xorb a0 a5)) (xorb a57 (xorb a63 a4)) (xorb a56 (xorb a62 a3)) (xorb a55 (xorb a61 a2)) (xorb a54 (xorb a60 a1)) (xorb a53 (xorb a59 a0)) (xorb a52 (xorb a58 a63)) (xorb a51 (xorb a57 a62)) (xorb a50 (xorb a56 a61)) (xorb a49 (xorb a55 a60)) (xorb a48 (xorb a54 a59)) (xorb a47 (xorb a53 a58)) (xorb a46 (xorb a52 a57)) (xorb a45 (xorb a51 a56)) (xorb a44 (xorb a50 a55)) (xorb a43 (xorb a49 a54)) (xorb a42 (xorb a48 a53)) (xorb a41 (xorb a47 a52)) (xorb a40 (xorb a46 a51)) (xorb a39 (xorb a45 a50)) (xorb a38 (xorb a44 a49)) (xorb a37 (xorb a43 a48)) (xorb a36 (xorb a42 a47)) (xorb a35 (xorb a41 a46)) (xorb a34 (xorb a40 a45)) (xorb a33 (xorb a39 a44)) (xorb a32 (xorb a38 a43)) (xorb a31 (xorb a37 a42)) (xorb a30 (xorb a36 a41)) (xorb a29 (xorb a35 a40)) (xorb a28 (xorb a34 a39))
+  end.
+
+Definition w64_bsig1 (a : w64) : w64 :=
+  match a with W64 a63 a62 a61 a60 a59 a58 a57 a56 a55 a54 a53 a52 a51 a50 a49 a48 a47 a46 a45 a44 a43 a42 a41 a40 a39 a38 a37 a36 a35 a34 a33 a32 a31 a30 a29 a28 a27 a26 a25 a24 a23 a22 a21 a20 a19 a18 a17 a16 a15 a14 a13 a12 a11 a10 a9 a8 a7 a6 a5 a4 a3 a2 a1 a0 =>
+    W64 (xorb a13 (xorb a17 a40)) (xorb a12 (xorb a16 a39)) (xorb a11 (xorb a15 a38)) (xorb a10 (xorb a14 a37)) (xorb a9 (xorb a13 a36)) (xorb a8 (xorb a12 a35)) (xorb a7 (xorb a11 a34)) (xorb a6 (xorb a10 a33)) (xorb a5 (xorb a9 a32)) (xorb a4 (xorb a8 a31)) (xorb a3 (xorb a7 a30)) (xorb a2 (xorb a6 a29)) (xorb a1 (xorb a5 a28)) (xorb a0 (xorb a4 a27)) (xorb a63 (xorb a3 a26)) (xorb a62 (xorb a2 a25)) (xorb a61 (xorb a1 a24)) (xorb a60 (xorb a0 a23)) (xorb a59 (xorb a63 a22)) (xorb a58 (xorb a62 a21)) (xorb a57 (xorb a61 a20)) (xorb a56 (xorb a60 a19)) (xorb a55 (xorb a59 a18)) (xorb a54 (xorb a58 a17)) (xorb a53 (xorb a57 a16)) (xorb a52 (xorb a56 a15)) (xorb a51 (xorb a55 a14)) (xorb a50 (xorb a54 a13)) (xorb a49 (xorb a53 a12)) (xorb a48 (xorb a52 a11)) (xorb a47 (xorb a51 a10)) (xorb a46 (xorb a50 a9)) (xorb a45 (xorb a49 a8)) (xorb a44 (xorb a48 a7)) (xorb a43 (xorb a47 a6)) (xorb a42 (xorb a46 a5)) (xorb a41 (xorb a45 a4)) (xorb a40 (xorb a44 a3)) (xorb a39 (xorb a43 a2)) (xorb a38 (xorb a42 a1)) (xorb a37 (xorb a41 a0)) (xorb a36 (xorb a40 a63)) (xorb a35 (xorb a39 a62)) (xorb a34 (xorb a38 a61)) (xorb a33 (xorb a37 a60)) (xorb a32 (xorb a36 a59)) (xorb a31 (xorb a35 a58)) (xorb a30 (xorb a34 a57)) (xorb a29 (xorb a33 a56)) (xorb a28 (xorb a32 a55)) (xorb a27 (xorb a31 a54)) (xorb a26 (xorb a30 a53)) (xorb a25 (xorb a29 a52)) (xorb a24 (xorb a28 a51)) (xorb a23 (xorb a27 a50)) (xorb a22 (xorb a26 a49)) (xorb a21 (xorb a25 a48)) (xorb a20 (xorb a24 a47)) (xorb a19 (xorb a23 a46)) (xorb a18 (xorb a22 a45)) (xorb a17 (xorb a21 a44)) (xorb a16 (xorb a20 a43)) (xorb a15 (xorb a19 a42)) (xorb a14 (xorb a18 a41))
+  end.
+
+Definition w64_ssig0 (a : w64) : w64 :=
+  match a with W64 a63 a62 a61 a60 a59 a58 a57 a56 a55 a54 a53 a52 a51 a50 a49 a48 a47 a46 a45 a44 a43 a42 a41 a40 a39 a38 a37 a36 a35 a34 a33 a32 a31 a30 a29 a28 a27 a26 a25 a24 a23 a22 a21 a20 a19 a18 a17 a16 a15 a14 a13 a12 a11 a10 a9 a8 a7 a6 a5 a4 a3 a2 a1 a0 =>
+    W64 (xorb a0 a7) (xorb a63 a6) (xorb a62 a5) (xorb a61 a4) (xorb a60 a3) (xorb a59 a2) (xorb a58 a1) (xorb a57 (xorb a0 a63)) (xorb a56 (xorb a63 a62)) (xorb a55 (xorb a62 a61)) (xorb a54 (xorb a61 a60)) (xorb a53 (xorb a60 a59)) (xorb a52 (xorb a59 a58)) (xorb a51 (xorb a58 a57)) (xorb a50 (xorb a57 a56)) (xorb a49 (xorb a56 a55)) (xorb a48 (xorb a55 a54)) (xorb a47 (xorb a54 a53)) (xorb a46 (xorb a53 a52)) (xorb a45 (xorb a52 a51)) (xorb a44 (xorb a51 a50)) (xorb a43 (xorb a50 a49)) (xorb a42 (xorb a49 a48)) (xorb a41 (xorb a48 a47)) (xorb a40 (xorb a47 a46)) (xorb a39 (xorb a46 a45)) (xorb a38 (xorb a45 a44)) (xorb a37 (xorb a44 a43)) (xorb a36 (xorb a43 a42)) (xorb a35 (xorb a42 a41)) (xorb a34 (xorb a41 a40)) (xorb a33 (xorb a40 a39)) (xorb a32 (xorb a39 a38)) (xorb a31 (xorb a38 a37)) (xorb a30 (xorb a37 a36)) (xorb a29 (xorb a36 a35)) (xorb a28 (xorb a35 a34)) (xorb a27 (xorb a34 a33)) (xorb a26 (xorb a33 a32)) (xorb a25 (xorb a32 a31)) (xorb a24 (xorb a31 a30)) (xorb a23 (xorb a30 a29)) (xorb a22 (xorb a29 a28)) (xorb a21 (xorb a28 a27)) (xorb a20 (xorb a27 a26)) (xorb a19 (xorb a26 a25)) (xorb a18 (xorb a25 a24)) (xorb a17 (xorb a24 a23)) (xorb a16 (xorb a23 a22)) (xorb a15 (xorb a22 a21)) (xorb a14 (xorb a21 a20)) (xorb a13 (xorb a20 a19)) (xorb a12 (xorb a19 a18)) (xorb a11 (xorb a18 a17)) (xorb a10 (xorb a17 a16)) (xorb a9 (xorb a16 a15)) (xorb a8 (xorb a15 a14)) (xorb a7 (xorb a14 a13)) (xorb a6 (xorb a13 a12)) (xorb a5 (xorb a12 a11)) (xorb a4 (xorb a11 a10)) (xorb a3 (xorb a10 a9)) (xorb a2 (xorb a9 a8)) (xorb a1 (xorb a8 a7))
+  end.
+
+Definition w64_ssig1 (a : w64) : w64 :=
+  match a with W64 a63 a62 a61 a60 a59 a58 a57 a56 a55 a54 a53 a52 a51 a50 a49 a48 a47 a46 a45 a44 a43 a42 a41 a40 a39 a38 a37 a36 a35 a34 a33 a32 a31 a30 a29 a28 a27 a26 a25 a24 a23 a22 a21 a20 a19 a18 a17 a16 a15 a14 a13 a12 a11 a10 a9 a8 a7 a6 a5 a4 a3 a2 a1 a0 =>
+    W64 (xorb a18 a60) (xorb a17 a59) (xorb a16 a58) (xorb a15 a57) (xorb a14 a56) (xorb a13 a55) (xorb a12 (xorb a54 a63)) (xorb a11 (xorb a53 a62)) (xorb a10 (xorb a52 a61)) (xorb a9 (xorb a51 a60)) (xorb a8 (xorb a50 a59)) (xorb a7 (xorb a49 a58)) (xorb a6 (xorb a48 a57)) (xorb a5 (xorb a47 a56)) (xorb a4 (xorb a46 a55)) (xorb a3 (xorb a45 a54)) (xorb a2 (xorb a44 a53)) (xorb a1 (xorb a43 a52)) (xorb a0 (xorb a42 a51)) (xorb a63 (xorb a41 a50)) (xorb a62 (xorb a40 a49)) (xorb a61 (xorb a39 a48)) (xorb a60 (xorb a38 a47)) (xorb a59 (xorb a37 a46)) (xorb a58 (xorb a36 a45)) (xorb a57 (xorb a35 a44)) (xorb a56 (xorb a34 a43)) (xorb a55 (xorb a33 a42)) (xorb a54 (xorb a32 a41)) (xorb a53 (xorb a31 a40)) (xorb a52 (xorb a30 a39)) (xorb a51 (xorb a29 a38)) (xorb a50 (xorb a28 a37)) (xorb a49 (xorb a27 a36)) (xorb a48 (xorb a26 a35)) (xorb a47 (xorb a25 a34)) (xorb a46 (xorb a24 a33)) (xorb a45 (xorb a23 a32)) (xorb a44 (xorb a22 a31)) (xorb a43 (xorb a21 a30)) (xorb a42 (xorb a20 a29)) (xorb a41 (xorb a19 a28)) (xorb a40 (xorb a18 a27)) (xorb a39 (xorb a17 a26)) (xorb a38 (xorb a16 a25)) (xorb a37 (xorb a15 a24)) (xorb a36 (xorb a14 a23)) (xorb a35 (xorb a13 a22)) (xorb a34 (xorb a12 a21)) (xorb a33 (xorb a11 a20)) (xorb a32 (xorb a10 a19)) (xorb a31 (xorb a9 a18)) (xorb a30 (xorb a8 a17)) (xorb a29 (xorb a7 a16)) (xorb a28 (xorb a6 a15)) (xorb a27 (xorb a5 a14)) (xorb a26 (xorb a4 a13)) (xorb a25 (xorb a3 a12)) (xorb a24 (xorb a2 a11)) (xorb a23 (xorb a1 a10)) (xorb a22 (xorb a0 a9)) (xorb a21 (xorb a63 a8)) (xorb a20 (xorb a62 a7)) (xorb a19 (xorb a61 a6))
+  end.
+
+Definition w64_add (a b : w64) : w64 :=
+  match a, b with W64 a63 a62 a61 a60 a59 a58 a57 a56 a55 a54 a53 a52 a51 a50 a49 a48 a47 a46 a45 a44 a43 a42 a41 a40 a39 a38 a37 a36 a35 a34 a33 a32 a31 a30 a29 a28 a27 a26 a25 a24 a23 a22 a21 a20 a19 a18 a17 a16 a15 a14 a13 a12 a11 a10 a9 a8 a7 a6 a5 a4 a3 a2 a1 a0, W64 b63 b62 b61 b60 b59 b58 b57 b56 b55 b54 b53 b52 b51 b50 b49 b48 b47 b46 b45 b44 b43 b42 b41 b40 b39 b38 b37 b36 b35 b34 b33 b32 b31 b30 b29 b28 b27 b26 b25 b24 b23 b22 b21 b20 b19 b18 b17 b16 b15 b14 b13 b12 b11 b10 b9 b8 b7 b6 b5 b4 b3 b2 b1 b0 =>
+    let s0 := xorb a0 b0 in let c1 := andb a0 b0 in
+    let s1 := xorb a1 (xorb b1 c1) in let c2 := if a1 then orb b1 c1 else andb b1 c1 in
+    let s2 := xorb a2 (xorb b2 c2) in let c3 := if a2 then orb b2 c2 else andb b2 c2 in
+    let s3 := xorb a3 (xorb b3 c3) in let c4 := if a3 then orb b3 c3 else andb b3 c3 in
+    let s4 := xorb a4 (xorb b4 c4) in let c5 := if a4 then orb b4 c4 else andb b4 c4 in
+    let s5 := xorb a5 (xorb b5 c5) in let c6 := if a5 then orb b5 c5 else andb b5 c5 in
+    let s6 := xorb a6 (xorb b6 c6) in let c7 := if a6 then orb b6 c6 else andb b6 c6 in
+    let s7 := xorb a7 (xorb b7 c7) in let c8 := if a7 then orb b7 c7 else andb b7 c7 in
+    let s8 := xorb a8 (xorb b8 c8) in let c9 := if a8 then orb b8 c8 else andb b8 c8 in
+    let s9 := xorb a9 (xorb b9 c9) in let c10 := if a9 then orb b9 c9 else andb b9 c9 in
+    let s10 := xorb a10 (xorb b10 c10) in let c11 := if a10 then orb b10 c10 else andb b10 c10 in
+    let s11 := xorb a11 (xorb b11 c11) in let c12 := if a11 then orb b11 c11 else andb b11 c11 in
+    let s12 := xorb a12 (xorb b12 c12) in let c13 := if a12 then orb b12 c12 else andb b12 c12 in
+    let s13 := xorb a13 (xorb b13 c13) in let c14 := if a13 then orb b13 c13 else andb b13 c13 in
+    let s14 := xorb a14 (xorb b14 c14) in let c15 := if a14 then orb b14 c14 else andb b14 c14 in
+    let s15 := xorb a15 (xorb b15 c15) in let c16 := if a15 then orb b15 c15 else andb b15 c15 in
+    let s16 := xorb a16 (xorb b16 c16) in let c17 := if a16 then orb b16 c16 else andb b16 c16 in
+    let s17 := xorb a17 (xorb b17 c17) in let c18 := if a17 then orb b17 c17 else andb b17 c17 in
+    let s18 := xorb a18 (xorb b18 c18) in let c19 := if a18 then orb b18 c18 else andb b18 c18 in
+    let s19 := xorb a19 (xorb b19 c19) in let c20 := if a19 then orb b19 c19 else andb b19 c19 in
+    let s20 := xorb a20 (xorb b20 c20) in let c21 := if a20 then orb b20 c20 else andb b20 c20 in
+    let s21 := xorb a21 (xorb b21 c21) in let c22 := if a21 then orb b21 c21 else andb b21 c21 in
+    let s22 := xorb a22 (xorb b22 c22) in let c23 := if a22 then orb b22 c22 else andb b22 c22 in
+    let s23 := xorb a23 (xorb b23 c23) in let c24 := if a23 then orb b23 c23 else andb b23 c23 in
+    let s24 := xorb a24 (xorb b24 c24) in let c25 := if a24 then orb b24 c24 else andb b24 c24 in
+    let s25 := xorb a25 (xorb b25 c25) in let c26 := if a25 then orb b25 c25 else andb b25 c25 in
+    let s26 := xorb a26 (xorb b26 c26) in let c27 := if a26 then orb b26 c26 else andb b26 c26 in
+    let s27 := xorb a27 (xorb b27 c27) in let c28 := if a27 then orb b27 c27 else andb b27 c27 in
+    let s28 := xorb a28 (xorb b28 c28) in let c29 := if a28 then orb b28 c28 else andb b28 c28 in
+    let s29 := xorb a29 (xorb b29 c29) in let c30 := if a29 then orb b29 c29 else andb b29 c29 in
+    let s30 := xorb a30 (xorb b30 c30) in let c31 := if a30 then orb b30 c30 else andb b30 c30 in
+    let s31 := xorb a31 (xorb b31 c31) in let c32 := if a31 then orb b31 c31 else andb b31 c31 in
+    let s32 := xorb a32 (xorb b32 c32) in let c33 := if a32 then orb b32 c32 else andb b32 c32 in
+    let s33 := xorb a33 (xorb b33 c33) in let c34 := if a33 then orb b33 c33 else andb b33 c33 in
+    let s34 := xorb a34 (xorb b34 c34) in let c35 := if a34 then orb b34 c34 else andb b34 c34 in
+    let s35 := xorb a35 (xorb b35 c35) in let c36 := if a35 then orb b35 c35 else andb b35 c35 in
+    let s36 := xorb a36 (xorb b36 c36) in let c37 := if a36 then orb b36 c36 else andb b36 c36 in
+    let s37 := xorb a37 (xorb b37 c37) in let c38 := if a37 then orb b37 c37 else andb b37 c37 in
+    let s38 := xorb a38 (xorb b38 c38) in let c39 := if a38 then orb b38 c38 else andb b38 c38 in
+    let s39 := xorb a39 (xorb b39 c39) in let c40 := if a39 then orb b39 c39 else andb b39 c39 in
+    let s40 := xorb a40 (xorb b40 c40) in let c41 := if a40 then orb b40 c40 else andb b40 c40 in
+    let s41 := xorb a41 (xorb b41 c41) in let c42 := if a41 then orb b41 c41 else andb b41 c41 in
+    let s42 := xorb a42 (xorb b42 c42) in let c43 := if a42 then orb b42 c42 else andb b42 c42 in
+    let s43 := xorb a43 (xorb b43 c43) in let c44 := if a43 then orb b43 c43 else andb b43 c43 in
+    let s44 := xorb a44 (xorb b44 c44) in let c45 := if a44 then orb b44 c44 else andb b44 c44 in
+    let s45 := xorb a45 (xorb b45 c45) in let c46 := if a45 then orb b45 c45 else andb b45 c45 in
+    let s46 := xorb a46 (xorb b46 c46) in let c47 := if a46 then orb b46 c46 else andb b46 c46 in
+    let s47 := xorb a47 (xorb b47 c47) in let c48 := if a47 then orb b47 c47 else andb b47 c47 in
+    let s48 := xorb a48 (xorb b48 c48) in let c49 := if a48 then orb b48 c48 else andb b48 c48 in
+    let s49 := xorb a49 (xorb b49 c49) in let c50 := if a49 then orb b49 c49 else andb b49 c49 in
+    let s50 := xorb a50 (xorb b50 c50) in let c51 := if a50 then orb b50 c50 else andb b50 c50 in
+    let s51 := xorb a51 (xorb b51 c51) in let c52 := if a51 then orb b51 c51 else andb b51 c51 in
+    let s52 := xorb a52 (xorb b52 c52) in let c53 := if a52 then orb b52 c52 else andb b52 c52 in
+    let s53 := xorb a53 (xorb b53 c53) in let c54 := if a53 then orb b53 c53 else andb b53 c53 in
+    let s54 := xorb a54 (xorb b54 c54) in let c55 := if a54 then orb b54 c54 else andb b54 c54 in
+    let s55 := xorb a55 (xorb b55 c55) in let c56 := if a55 then orb b55 c55 else andb b55 c55 in
+    let s56 := xorb a56 (xorb b56 c56) in let c57 := if a56 then orb b56 c56 else andb b56 c56 in
+    let s57 := xorb a57 (xorb b57 c57) in let c58 := if a57 then orb b57 c57 else andb b57 c57 in
+    let s58 := xorb a58 (xorb b58 c58) in let c59 := if a58 then orb b58 c58 else andb b58 c58 in
+    let s59 := xorb a59 (xorb b59 c59) in let c60 := if a59 then orb b59 c59 else andb b59 c59 in
+    let s60 := xorb a60 (xorb b60 c60) in let c61 := if a60 then orb b60 c60 else andb b60 c60 in
+    let s61 := xorb a61 (xorb b61 c61) in let c62 := if a61 then orb b61 c61 else andb b61 c61 in
+    let s62 := xorb a62 (xorb b62 c62) in let c63 := if a62 then orb b62 c62 else andb b62 c62 in
+    let s63 := xorb a63 (xorb b63 c63) in
+    W64 s63 s62 s61 s60 s59 s58 s57 s56 s55 s54 s53 s52 s51 s50 s49 s48 s47 s46 s45 s44 s43 s42 s41 s40 s39 s38 s37 s36 s35 s34 s33 s32 s31 s30 s29 s28 s27 s26 s25 s24 s23 s22 s21 s20 s19 s18 s17 s16 s15 s14 s13 s12 s11 s10 s9 s8 s7 s6 s5 s4 s3 s2 s1 s0
+  end.
+
+Definition w64_of_octets (o0 o1 o2 o3 o4 o5 o6 o7 : N) : w64 :=
+  W64 (N.testbit o0 7) (N.testbit o0 6) (N.testbit o0 5) (N.testbit o0 4) (N.testbit o0 3) (N.testbit o0 2) (N.testbit o0 1) (N.testbit o0 0) (N.testbit o1 7) (N.testbit o1 6) (N.testbit o1 5) (N.testbit o1 4) (N.testbit o1 3) (N.testbit o1 2) (N.testbit o1 1) (N.testbit o1 0) (N.testbit o2 7) (N.testbit o2 6) (N.testbit o2 5) (N.testbit o2 4) (N.testbit o2 3) (N.testbit o2 2) (N.testbit o2 1) (N.testbit o2 0) (N.testbit o3 7) (N.testbit o3 6) (N.testbit o3 5) (N.testbit o3 4) (N.testbit o3 3) (N.testbit o3 2) (N.testbit o3 1) (N.testbit o3 0) (N.testbit o4 7) (N.testbit o4 6) (N.testbit o4 5) (N.testbit o4 4) (N.testbit o4 3) (N.testbit o4 2) (N.testbit o4 1) (N.testbit o4 0) (N.testbit o5 7) (N.testbit o5 6) (N.testbit o5 5) (N.testbit o5 4) (N.testbit o5 3) (N.testbit o5 2) (N.testbit o5 1) (N.testbit o5 0) (N.testbit o6 7) (N.testbit o6 6) (N.testbit o6 5) (N.testbit o6 4) (N.testbit o6 3) (N.testbit o6 2) (N.testbit o6 1) (N.testbit o6 0) (N.testbit o7 7) (N.testbit o7 6) (N.testbit o7 5) (N.testbit o7 4) (N.testbit o7 3) (N.testbit o7 2) (N.testbit o7 1) (N.testbit o7 0).
+
+Definition octets_of_w64 (a : w64) : list N :=
+  match a with W64 a63 a62 a61 a60 a59 a58 a57 a56 a55 a54 a53 a52 a51 a50 a49 a48 a47 a46 a45 a44 a43 a42 a41 a40 a39 a38 a37 a36 a35 a34 a33 a32 a31 a30 a29 a28 a27 a26 a25 a24 a23 a22 a21 a20 a19 a18 a17 a16 a15 a14 a13 a12 a11 a10 a9 a8 a7 a6 a5 a4 a3 a2 a1 a0 =>
+    [ nb a56 (nb a57 (nb a58 (nb a59 (nb a60 (nb a61 (nb a62 (nb a63 (0))))))));
+      nb a48 (nb a49 (nb a50 (nb a51 (nb a52 (nb a53 (nb a54 (nb a55 (0))))))));
+      nb a40 (nb a41 (nb a42 (nb a43 (nb a44 (nb a45 (nb a46 (nb a47 (0))))))));
+      nb a32 (nb a33 (nb a34 (nb a35 (nb a36 (nb a37 (nb a38 (nb a39 (0))))))));
+      nb a24 (nb a25 (nb a26 (nb a27 (nb a28 (nb a29 (nb a30 (nb a31 (0))))))));
+      nb a16 (nb a17 (nb a18 (nb a19 (nb a20 (nb a21 (nb a22 (nb a23 (0))))))));
+      nb a8 (nb a9 (nb a10 (nb a11 (nb a12 (nb a13 (nb a14 (nb a15 (0))))))));
+      nb a0 (nb a1 (nb a2 (nb a3 (nb a4 (nb a5 (nb a6 (nb a7 (0)))))))) ]
+  end.
+
+Definition w64_of_N (x : N) : w64 :=
+  W64 (N.testbit x 63) (N.testbit x 62) (N.testbit x 61) (N.testbit x 60) (N.testbit x 59) (N.testbit x 58) (N.testbit x 57) (N.testbit x 56) (N.testbit x 55) (N.testbit x 54) (N.testbit x 53) (N.testbit x 52) (N.testbit x 51) (N.testbit x 50) (N.testbit x 49) (N.testbit x 48) (N.testbit x 47) (N.testbit x 46) (N.testbit x 45) (N.testbit x 44) (N.testbit x 43) (N.testbit x 42) (N.testbit x 41) (N.testbit x 40) (N.testbit x 39) (N.testbit x 38) (N.testbit x 37) (N.testbit x 36) (N.testbit x 35) (N.testbit x 34) (N.testbit x 33) (N.testbit x 32) (N.testbit x 31) (N.testbit x 30) (N.testbit x 29) (N.testbit x 28) (N.testbit x 27) (N.testbit x 26) (N.testbit x 25) (N.testbit x 24) (N.testbit x 23) (N.testbit x 22) (N.testbit x 21) (N.testbit x 20) (N.testbit x 19) (N.testbit x 18) (N.testbit x 17) (N.testbit x 16) (N.testbit x 15) (N.testbit x 14) (N.testbit x 13) (N.testbit x 12) (N.testbit x 11) (N.testbit x 10) (N.testbit x 9) (N.testbit x 8) (N.testbit x 7) (N.testbit x 6) (N.testbit x 5) (N.testbit x 4) (N.testbit x 3) (N.testbit x 2) (N.testbit x 1) (N.testbit x 0).
+
+(* ======== padding (FIPS 180-4 section 5.1) ======== *)
 Definition lenN {A} (l : list A) : N := fold_left (fun a _ => N.succ a) l 0.
 
-(* n octets of x, big endian *)
+(* n octets of x, big endian, in front of acc *)
 Fixpoint be_octets (n : nat) (x : N) (acc : list N) : list N :=
   match n with
   | O => acc
@@ -60,31 +280,52 @@ Definition pad (blk : N) (lenf : nat) (m : list N) : list N :=
   let k := N.land (blk - N.land (l + 1 + N.of_nat lenf) (blk - 1)) (blk - 1) in
   m ++ 128 :: N.iter k (cons 0) (be_octets lenf (8 * l) []).
 
-(* ---- SHA-1 (FIPS 180-4 section 6.1) ---- *)
-Record st5 := St5 { s5a : N; s5b : N; s5c : N; s5d : N; s5e : N }.
-
-Definition sha1_f (t : N) (b c d : N) : N :=
-  match t with
-  | 0 => N.lxor (N.land b c) (N.ldiff d b)                               (* Ch *)
-  | 2 => N.lxor (N.land b c) (N.lxor (N.land b d) (N.land c d))          (* Maj *)
-  | _ => N.lxor b (N.lxor c d)                                           (* Parity *)
+Fixpoint words32 (l : list N) : list w32 :=
+  match l with
+  | a :: b :: c :: d :: r => w32_of_octets a b c d :: words32 r
+  | _ => []
   end.
 
-Definition sha1_k (t : N) : N :=
-  match t with 0 => 1518500249 | 1 => 1859775393 | 2 => 2400959708 | _ => 3395469782 end.
+Fixpoint words64 (l : list N) : list w64 :=
+  match l with
+  | a :: b :: c :: d :: e :: f :: g :: h :: r => w64_of_octets a b c d e f g h :: words64 r
+  | _ => []
+  end.
 
-Definition sha1_round (s : st5) (t w : N) : st5 :=
-  let tmp := N.land (rotl 32 mask32 5 (s5a s) + sha1_f t (s5b s) (s5c s) (s5d s) + s5e s + sha1_k t + w) mask32 in
-  St5 tmp (s5a s) (rotl 32 mask32 30 (s5b s)) (s5c s) (s5d s).
+(* ======== SHA-1 (FIPS 180-4 section 6.1) ======== *)
+Record st5 := St5 { s5a : w32; s5b : w32; s5c : w32; s5d : w32; s5e : w32 }.
+
+Inductive sha1_stage := Stage0 | Stage1 | Stage2 | Stage3.
+
+Definition sha1_f (t : sha1_stage) (b c d : w32) : w32 :=
+  match t with
+  | Stage0 => w32_ch b c d
+  | Stage2 => w32_maj b c d
+  | _ => w32_xor3 b c d
+  end.
+
+Definition sha1_kN (t : sha1_stage) : N :=
+  match t with Stage0 => 1518500249 | Stage1 => 1859775393 | Stage2 => 2400959708 | Stage3 => 3395469782 end.
+Definition sha1_k0 : w32 := Eval vm_compute in w32_of_N (sha1_kN Stage0).
+Definition sha1_k1 : w32 := Eval vm_compute in w32_of_N (sha1_kN Stage1).
+Definition sha1_k2 : w32 := Eval vm_compute in w32_of_N (sha1_kN Stage2).
+Definition sha1_k3 : w32 := Eval vm_compute in w32_of_N (sha1_kN Stage3).
+Definition sha1_k (t : sha1_stage) : w32 :=
+  match t with Stage0 => sha1_k0 | Stage1 => sha1_k1 | Stage2 => sha1_k2 | Stage3 => sha1_k3 end.
+
+Definition sha1_round (s : st5) (t : sha1_stage) (w : w32) : st5 :=
+  let tmp := w32_add (w32_add (w32_add (w32_add (w32_rotl5 (s5a s)) (sha1_f t (s5b s) (s5c s) (s5d s)))
+                                       (s5e s)) (sha1_k t)) w in
+  St5 tmp (s5a s) (w32_rotl30 (s5b s)) (s5c s) (s5d s).
 
 (* rounds 0..63: consume W[t] from the 16 word window and append W[t+16] *)
-Fixpoint sha1_rounds_ext (ts : list N) (s : st5) (w : list N) : st5 * list N :=
+Fixpoint sha1_rounds_ext (ts : list sha1_stage) (s : st5) (w : list w32) : st5 * list w32 :=
   match ts with
   | [] => (s, w)
   | t :: ts' =>
       match w with
       | [w0; w1; w2; w3; w4; w5; w6; w7; w8; w9; w10; w11; w12; w13; w14; w15] =>
-          let nw := rotl 32 mask32 1 (N.lxor w13 (N.lxor w8 (N.lxor w2 w0))) in
+          let nw := w32_rotl1 (w32_xor (w32_xor3 w13 w8 w2) w0) in
           sha1_rounds_ext ts' (sha1_round s t w0)
             [w1; w2; w3; w4; w5; w6; w7; w8; w9; w10; w11; w12; w13; w14; w15; nw]
       | _ => (s, w)
@@ -92,96 +333,78 @@ Fixpoint sha1_rounds_ext (ts : list N) (s : st5) (w : list N) : st5 * list N :=
   end.
 
 (* rounds 64..79: the window already holds W[64..79] *)
-Fixpoint sha1_rounds_plain (ts : list N) (s : st5) (w : list N) : st5 :=
+Fixpoint sha1_rounds_plain (ts : list sha1_stage) (s : st5) (w : list w32) : st5 :=
   match ts, w with
   | t :: ts', w0 :: w' => sha1_rounds_plain ts' (sha1_round s t w0) w'
   | _, _ => s
   end.
 
-Definition sha1_ts_ext : list N := repeat 0 20 ++ repeat 1 20 ++ repeat 2 20 ++ repeat 3 4.
-Definition sha1_ts_plain : list N := repeat 3 16.
+Definition sha1_ts_ext : list sha1_stage :=
+  Eval vm_compute in repeat Stage0 20 ++ repeat Stage1 20 ++ repeat Stage2 20 ++ repeat Stage3 4.
+Definition sha1_ts_plain : list sha1_stage := Eval vm_compute in repeat Stage3 16.
 
-Definition sha1_compress (s : st5) (blk : list N) : st5 :=
+Definition sha1_compress (s : st5) (blk : list w32) : st5 :=
   let '(s1, w1) := sha1_rounds_ext sha1_ts_ext s blk in
   let s2 := sha1_rounds_plain sha1_ts_plain s1 w1 in
-  St5 (N.land (s5a s + s5a s2) mask32) (N.land (s5b s + s5b s2) mask32)
-      (N.land (s5c s + s5c s2) mask32) (N.land (s5d s + s5d s2) mask32)
-      (N.land (s5e s + s5e s2) mask32).
+  St5 (w32_add (s5a s) (s5a s2)) (w32_add (s5b s) (s5b s2)) (w32_add (s5c s) (s5c s2))
+      (w32_add (s5d s) (s5d s2)) (w32_add (s5e s) (s5e s2)).
 
-Fixpoint sha1_blocks (s : st5) (ws : list N) : st5 :=
+Fixpoint sha1_blocks (s : st5) (ws : list w32) : st5 :=
   match ws with
   | w0 :: w1 :: w2 :: w3 :: w4 :: w5 :: w6 :: w7 :: w8 :: w9 :: w10 :: w11 :: w12 :: w13 :: w14 :: w15 :: rest =>
       sha1_blocks (sha1_compress s [w0; w1; w2; w3; w4; w5; w6; w7; w8; w9; w10; w11; w12; w13; w14; w15]) rest
   | _ => s
   end.
 
-Definition sha1_iv : st5 := St5 1732584193 4023233417 2562383102 271733878 3285377520.
+Definition sha1_iv : st5 := Eval vm_compute in
+  St5 (w32_of_N 1732584193) (w32_of_N 4023233417) (w32_of_N 2562383102) (w32_of_N 271733878) (w32_of_N 3285377520).
 
 Definition sha1 (m : list N) : list N :=
   let s := sha1_blocks sha1_iv (words32 (pad 64 8 m)) in
-  bytes_of_word32 (s5a s) ++ bytes_of_word32 (s5b s) ++ bytes_of_word32 (s5c s) ++
-  bytes_of_word32 (s5d s) ++ bytes_of_word32 (s5e s).
+  octets_of_w32 (s5a s) ++ octets_of_w32 (s5b s) ++ octets_of_w32 (s5c s) ++
+  octets_of_w32 (s5d s) ++ octets_of_w32 (s5e s).
 
-(* ---- SHA-2 family (FIPS 180-4 sections 6.2, 6.4, 6.5), generic in the word size ---- *)
-Record st8 := St8 { sa : N; sb : N; sc : N; sd : N; se : N; sf : N; sg : N; sh : N }.
-
-Record sha2_params := Sha2Params {
-  p_wb : N; p_mask : N;
-  p_S0 : N * N * N;     (* Sigma0: three rotations *)
-  p_S1 : N * N * N;     (* Sigma1: three rotations *)
-  p_s0 : N * N * N;     (* sigma0: two rotations, one shift *)
-  p_s1 : N * N * N;     (* sigma1: two rotations, one shift *)
-  p_k_ext : list N;     (* round constants of the rounds that extend the schedule *)
-  p_k_plain : list N    (* round constants of the last 16 rounds *)
-}.
+(* ======== SHA-2 family (FIPS 180-4 sections 6.2, 6.4, 6.5), generic in the word type ======== *)
+Record st8 (W : Type) := St8 { sa : W; sb : W; sc : W; sd : W; se : W; sf : W; sg : W; sh : W }.
+Arguments St8 {W}. Arguments sa {W}. Arguments sb {W}. Arguments sc {W}. Arguments sd {W}.
+Arguments se {W}. Arguments sf {W}. Arguments sg {W}. Arguments sh {W}.
 
 Section Sha2.
-  Variable P : sha2_params.
-  Let wb := p_wb P.
-  Let mask := p_mask P.
+  Variable W : Type.
+  Variables (add : W -> W -> W) (bsig0 bsig1 ssig0 ssig1 : W -> W) (ch maj : W -> W -> W -> W).
+  Variables (k_ext k_plain : list W).   (* constants of the schedule-extending rounds / of the last 16 *)
 
-  Definition bsig (r : N * N * N) (x : N) : N :=
-    let '(a, b, c) := r in
-    N.lxor (rotr wb mask a x) (N.lxor (rotr wb mask b x) (rotr wb mask c x)).
-  Definition ssig (r : N * N * N) (x : N) : N :=
-    let '(a, b, c) := r in
-    N.lxor (rotr wb mask a x) (N.lxor (rotr wb mask b x) (N.shiftr x c)).
-  Definition ch (e f g : N) : N := N.lxor (N.land e f) (N.ldiff g e).
-  Definition maj (a b c : N) : N := N.lxor (N.land a b) (N.lxor (N.land a c) (N.land b c)).
+  Definition sha2_round (s : st8 W) (k w : W) : st8 W :=
+    let t1 := add (add (add (add (sh s) (bsig1 (se s))) (ch (se s) (sf s) (sg s))) k) w in
+    let t2 := add (bsig0 (sa s)) (maj (sa s) (sb s) (sc s)) in
+    St8 (add t1 t2) (sa s) (sb s) (sc s) (add (sd s) t1) (se s) (sf s) (sg s).
 
-  Definition sha2_round (s : st8) (k w : N) : st8 :=
-    let t1 := sh s + bsig (p_S1 P) (se s) + ch (se s) (sf s) (sg s) + k + w in
-    let t2 := bsig (p_S0 P) (sa s) + maj (sa s) (sb s) (sc s) in
-    St8 (N.land (t1 + t2) mask) (sa s) (sb s) (sc s) (N.land (sd s + t1) mask) (se s) (sf s) (sg s).
-
-  Fixpoint sha2_rounds_ext (ks : list N) (s : st8) (w : list N) : st8 * list N :=
+  Fixpoint sha2_rounds_ext (ks : list W) (s : st8 W) (w : list W) : st8 W * list W :=
     match ks with
     | [] => (s, w)
     | k :: ks' =>
         match w with
         | [w0; w1; w2; w3; w4; w5; w6; w7; w8; w9; w10; w11; w12; w13; w14; w15] =>
-            let nw := N.land (ssig (p_s1 P) w14 + w9 + ssig (p_s0 P) w1 + w0) mask in
+            let nw := add (add (add (ssig1 w14) w9) (ssig0 w1)) w0 in
             sha2_rounds_ext ks' (sha2_round s k w0)
               [w1; w2; w3; w4; w5; w6; w7; w8; w9; w10; w11; w12; w13; w14; w15; nw]
         | _ => (s, w)
         end
     end.
 
-  Fixpoint sha2_rounds_plain (ks : list N) (s : st8) (w : list N) : st8 :=
+  Fixpoint sha2_rounds_plain (ks : list W) (s : st8 W) (w : list W) : st8 W :=
     match ks, w with
     | k :: ks', w0 :: w' => sha2_rounds_plain ks' (sha2_round s k w0) w'
     | _, _ => s
     end.
 
-  Definition sha2_compress (s : st8) (blk : list N) : st8 :=
-    let '(s1, w1) := sha2_rounds_ext (p_k_ext P) s blk in
-    let s2 := sha2_rounds_plain (p_k_plain P) s1 w1 in
-    St8 (N.land (sa s + sa s2) mask) (N.land (sb s + sb s2) mask)
-        (N.land (sc s + sc s2) mask) (N.land (sd s + sd s2) mask)
-        (N.land (se s + se s2) mask) (N.land (sf s + sf s2) mask)
-        (N.land (sg s + sg s2) mask) (N.land (sh s + sh s2) mask).
+  Definition sha2_compress (s : st8 W) (blk : list W) : st8 W :=
+    let '(s1, w1) := sha2_rounds_ext k_ext s blk in
+    let s2 := sha2_rounds_plain k_plain s1 w1 in
+    St8 (add (sa s) (sa s2)) (add (sb s) (sb s2)) (add (sc s) (sc s2)) (add (sd s) (sd s2))
+        (add (se s) (se s2)) (add (sf s) (sf s2)) (add (sg s) (sg s2)) (add (sh s) (sh s2)).
 
-  Fixpoint sha2_blocks (s : st8) (ws : list N) : st8 :=
+  Fixpoint sha2_blocks (s : st8 W) (ws : list W) : st8 W :=
     match ws with
     | w0 :: w1 :: w2 :: w3 :: w4 :: w5 :: w6 :: w7 :: w8 :: w9 :: w10 :: w11 :: w12 :: w13 :: w14 :: w15 :: rest =>
         sha2_blocks (sha2_compress s [w0; w1; w2; w3; w4; w5; w6; w7; w8; w9; w10; w11; w12; w13; w14; w15]) rest
@@ -189,7 +412,7 @@ Section Sha2.
     end.
 End Sha2.
 
-Definition k256 : list N :=
+Definition k256N : list N :=
   [ 1116352408; 1899447441; 3049323471; 3921009573;
     961987163; 1508970993; 2453635748; 2870763221;
     3624381080; 310598401; 607225278; 1426881987;
@@ -207,7 +430,7 @@ Definition k256 : list N :=
     1955562222; 2024104815; 2227730452; 2361852424;
     2428436474; 2756734187; 3204031479; 3329325298 ].
 
-Definition k512 : list N :=
+Definition k512N : list N :=
   [ 4794697086780616226; 8158064640168781261; 13096744586834688815;
     16840607885511220156; 4131703408338449720; 6480981068601479193;
     10538285296894168987; 12329834152419229976; 15566598209576043074;
@@ -236,53 +459,70 @@ Definition k512 : list N :=
     4836135668995329356; 5532061633213252278; 6448918945643986474;
     6902733635092675308; 7801388544844847127 ].
 
-Definition params256 : sha2_params :=
-  Sha2Params 32 mask32 (2, 13, 22) (6, 11, 25) (7, 18, 3) (17, 19, 10)
-             (firstn 48 k256) (skipn 48 k256).
-Definition params512 : sha2_params :=
-  Sha2Params 64 mask64 (28, 34, 39) (14, 18, 41) (1, 8, 7) (19, 61, 6)
-             (firstn 64 k512) (skipn 64 k512).
-
-Definition st8_of_list (l : list N) : st8 :=
+Definition st8_of_list {W} (d : W) (l : list W) : st8 W :=
   match l with
   | [a; b; c; d; e; f; g; h] => St8 a b c d e f g h
-  | _ => St8 0 0 0 0 0 0 0 0
+  | _ => St8 d d d d d d d d
   end.
 
-Definition iv256 : st8 := st8_of_list
+Definition iv256N : list N :=
   [ 1779033703; 3144134277; 1013904242; 2773480762;
     1359893119; 2600822924; 528734635; 1541459225 ].
-Definition iv512 : st8 := st8_of_list
+Definition iv512N : list N :=
   [ 7640891576956012808; 13503953896175478587;
     4354685564936845355; 11912009170470909681;
     5840696475078001361; 11170449401992604703;
     2270897969802886507; 6620516959819538809 ].
-Definition iv384 : st8 := st8_of_list
+Definition iv384N : list N :=
   [ 14680500436340154072; 7105036623409894663;
     10473403895298186519; 1526699215303891257;
     7436329637833083697; 10282925794625328401;
     15784041429090275239; 5167115440072839076 ].
 
-(* the constant tables are evaluated once, not on every call *)
-Definition params256_c : sha2_params := Eval vm_compute in params256.
-Definition params512_c : sha2_params := Eval vm_compute in params512.
+(* the constant tables are converted once, not on every call *)
+Definition k256_ext : list w32 := Eval vm_compute in map w32_of_N (firstn 48 k256N).
+Definition k256_plain : list w32 := Eval vm_compute in map w32_of_N (skipn 48 k256N).
+Definition k512_ext : list w64 := Eval vm_compute in map w64_of_N (firstn 64 k512N).
+Definition k512_plain : list w64 := Eval vm_compute in map w64_of_N (skipn 64 k512N).
+Definition iv256 : st8 w32 := Eval vm_compute in st8_of_list (w32_of_N 0) (map w32_of_N iv256N).
+Definition iv512 : st8 w64 := Eval vm_compute in st8_of_list (w64_of_N 0) (map w64_of_N iv512N).
+Definition iv384 : st8 w64 := Eval vm_compute in st8_of_list (w64_of_N 0) (map w64_of_N iv384N).
+
+Definition sha256_blocks : st8 w32 -> list w32 -> st8 w32 :=
+  sha2_blocks w32 w32_add w32_bsig0 w32_bsig1 w32_ssig0 w32_ssig1 w32_ch w32_maj k256_ext k256_plain.
+Definition sha512_blocks : st8 w64 -> list w64 -> st8 w64 :=
+  sha2_blocks w64 w64_add w64_bsig0 w64_bsig1 w64_ssig0 w64_ssig1 w64_ch w64_maj k512_ext k512_plain.
 
 Definition sha256 (m : list N) : list N :=
-  let s := sha2_blocks params256_c iv256 (words32 (pad 64 8 m)) in
-  bytes_of_word32 (sa s) ++ bytes_of_word32 (sb s) ++ bytes_of_word32 (sc s) ++ bytes_of_word32 (sd s) ++
-  bytes_of_word32 (se s) ++ bytes_of_word32 (sf s) ++ bytes_of_word32 (sg s) ++ bytes_of_word32 (sh s).
+  let s := sha256_blocks iv256 (words32 (pad 64 8 m)) in
+  octets_of_w32 (sa s) ++ octets_of_w32 (sb s) ++ octets_of_w32 (sc s) ++ octets_of_w32 (sd s) ++
+  octets_of_w32 (se s) ++ octets_of_w32 (sf s) ++ octets_of_w32 (sg s) ++ octets_of_w32 (sh s).
 
 Definition sha512 (m : list N) : list N :=
-  let s := sha2_blocks params512_c iv512 (words64 (pad 128 16 m)) in
-  bytes_of_word64 (sa s) ++ bytes_of_word64 (sb s) ++ bytes_of_word64 (sc s) ++ bytes_of_word64 (sd s) ++
-  bytes_of_word64 (se s) ++ bytes_of_word64 (sf s) ++ bytes_of_word64 (sg s) ++ bytes_of_word64 (sh s).
+  let s := sha512_blocks iv512 (words64 (pad 128 16 m)) in
+  octets_of_w64 (sa s) ++ octets_of_w64 (sb s) ++ octets_of_w64 (sc s) ++ octets_of_w64 (sd s) ++
+  octets_of_w64 (se s) ++ octets_of_w64 (sf s) ++ octets_of_w64 (sg s) ++ octets_of_w64 (sh s).
 
 Definition sha384 (m : list N) : list N :=
-  let s := sha2_blocks params512_c iv384 (words64 (pad 128 16 m)) in
-  bytes_of_word64 (sa s) ++ bytes_of_word64 (sb s) ++ bytes_of_word64 (sc s) ++ bytes_of_word64 (sd s) ++
-  bytes_of_word64 (se s) ++ bytes_of_word64 (sf s).
+  let s := sha512_blocks iv384 (words64 (pad 128 16 m)) in
+  octets_of_w64 (sa s) ++ octets_of_w64 (sb s) ++ octets_of_w64 (sc s) ++ octets_of_w64 (sd s) ++
+  octets_of_w64 (se s) ++ octets_of_w64 (sf s).
 
-(* ---- test vectors ---- *)
+(* output sizes (used by HMAC/TSIG truncation arithmetic) *)
+Lemma sha1_length m : List.length (sha1 m) = 20%nat.
+Proof. unfold sha1. repeat rewrite app_length.
+  repeat match goal with |- context [octets_of_w32 ?x] => destruct x end. reflexivity. Qed.
+Lemma sha256_length m : List.length (sha256 m) = 32%nat.
+Proof. unfold sha256. repeat rewrite app_length.
+  repeat match goal with |- context [octets_of_w32 ?x] => destruct x end. reflexivity. Qed.
+Lemma sha384_length m : List.length (sha384 m) = 48%nat.
+Proof. unfold sha384. repeat rewrite app_length.
+  repeat match goal with |- context [octets_of_w64 ?x] => destruct x end. reflexivity. Qed.
+Lemma sha512_length m : List.length (sha512 m) = 64%nat.
+Proof. unfold sha512. repeat rewrite app_length.
+  repeat match goal with |- context [octets_of_w64 ?x] => destruct x end. reflexivity. Qed.
+
+(* ======== test vectors ======== *)
 Definition str (s : string) : list N := map N_of_ascii (list_ascii_of_string s).
 Definition hexdigit (n : N) : ascii :=
   ascii_of_N (if n <? 10 then 48 + n else 87 + n).
@@ -291,9 +531,6 @@ Fixpoint hex (l : list N) : string :=
   | [] => EmptyString
   | b :: r => String (hexdigit (N.shiftr b 4)) (String (hexdigit (N.land b 15)) (hex r))
   end.
-
-Example params256_c_ok : params256_c = params256. Proof. vm_compute. reflexivity. Qed.
-Example params512_c_ok : params512_c = params512. Proof. vm_compute. reflexivity. Qed.
 
 Example sha1_abc : hex (sha1 (str "abc")) = "a9993e364706816aba3e25717850c26c9cd0d89d"%string.
 Proof. vm_compute. reflexivity. Qed.
@@ -351,6 +588,8 @@ Example sha1_a129 : hex (sha1 (repeat 97 129)) = "d96debf1bdcbc896e6c134ea76e814
 Proof. vm_compute. reflexivity. Qed.
 Example sha1_a1000 : hex (sha1 (repeat 97 1000)) = "291e9a6c66994949b57ba5e650361e98fc36b1ba"%string.
 Proof. vm_compute. reflexivity. Qed.
+Example sha1_all_octets : hex (sha1 (map N.of_nat (seq 0 256))) = "4916d6bdb7f78e6803698cab32d1586ea457dfc8"%string.
+Proof. vm_compute. reflexivity. Qed.
 Example sha256_a55 : hex (sha256 (repeat 97 55)) = "9f4390f8d30c2dd92ec9f095b65e2b9ae9b0a925a5258e241c9f1e910f734318"%string.
 Proof. vm_compute. reflexivity. Qed.
 Example sha256_a63 : hex (sha256 (repeat 97 63)) = "7d3e74a05d7db15bce4ad9ec0658ea98e3f06eeecf16b4c6fff2da457ddc2f34"%string.
@@ -374,6 +613,8 @@ Proof. vm_compute. reflexivity. Qed.
 Example sha256_a129 : hex (sha256 (repeat 97 129)) = "c12cb024a2e5551cca0e08fce8f1c5e314555cc3fef6329ee994a3db752166ae"%string.
 Proof. vm_compute. reflexivity. Qed.
 Example sha256_a1000 : hex (sha256 (repeat 97 1000)) = "41edece42d63e8d9bf515a9ba6932e1c20cbc9f5a5d134645adb5db1b9737ea3"%string.
+Proof. vm_compute. reflexivity. Qed.
+Example sha256_all_octets : hex (sha256 (map N.of_nat (seq 0 256))) = "40aff2e9d2d8922e47afd4648e6967497158785fbd1da870e7110266bf944880"%string.
 Proof. vm_compute. reflexivity. Qed.
 Example sha384_a55 : hex (sha384 (repeat 97 55)) = "5d91ac7e74e62b5c728904b40f10784d66b7af9cb6302123e48c92f0432ceb8d2a92c02de77dcb29ed75c4b42bde46f4"%string.
 Proof. vm_compute. reflexivity. Qed.
@@ -399,6 +640,8 @@ Example sha384_a129 : hex (sha384 (repeat 97 129)) = "39b6f5a7b0e781dbc419f72e49
 Proof. vm_compute. reflexivity. Qed.
 Example sha384_a1000 : hex (sha384 (repeat 97 1000)) = "f54480689c6b0b11d0303285d9a81b21a93bca6ba5a1b4472765dca4da45ee328082d469c650cd3b61b16d3266ab8ced"%string.
 Proof. vm_compute. reflexivity. Qed.
+Example sha384_all_octets : hex (sha384 (map N.of_nat (seq 0 256))) = "ffdaebff65ed05cf400f0221c4ccfb4b2104fb6a51f87e40be6c4309386bfdec2892e9179b34632331a59592737db5c5"%string.
+Proof. vm_compute. reflexivity. Qed.
 Example sha512_a55 : hex (sha512 (repeat 97 55)) = "b0220c772cbf6c1822e2cb38a437d0e1d58772417a4bbb21c961364f8b6143e05aa6316dca8d1d7b19e16448419076395f6086cb55101fbd6d5497b148e1745f"%string.
 Proof. vm_compute. reflexivity. Qed.
 Example sha512_a63 : hex (sha512 (repeat 97 63)) = "c1b0f5c6d3b03dfe4a2602e67242f54e344090b66e01100a469b129f583f016c7e27dddeaa438393dcc7ec54b0b57c9ba7af007f9b56db5f6fb677d972a31362"%string.
@@ -422,4 +665,6 @@ Proof. vm_compute. reflexivity. Qed.
 Example sha512_a129 : hex (sha512 (repeat 97 129)) = "4f681e0bd53cda4b5a2041cc8a06f2eabde44fb16c951fbd5b87702f07aeab611565b19c47fde30587177ebb852e3971bbd8d3fd30da18d71037dfbd98420429"%string.
 Proof. vm_compute. reflexivity. Qed.
 Example sha512_a1000 : hex (sha512 (repeat 97 1000)) = "67ba5535a46e3f86dbfbed8cbbaf0125c76ed549ff8b0b9e03e0c88cf90fa634fa7b12b47d77b694de488ace8d9a65967dc96df599727d3292a8d9d447709c97"%string.
+Proof. vm_compute. reflexivity. Qed.
+Example sha512_all_octets : hex (sha512 (map N.of_nat (seq 0 256))) = "1e7b80bc8edc552c8feeb2780e111477e5bc70465fac1a77b29b35980c3f0ce4a036a6c9462036824bd56801e62af7e9feba5c22ed8a5af877bf7de117dcac6d"%string.
 Proof. vm_compute. reflexivity. Qed.
